@@ -260,11 +260,31 @@ ADDENDA = {
             " Added: D12.group (no throwing call while the pending-refinement group is partially written; the member whose emptiness the writer tests is set together with its companions), D13.nullable, D14.sized, D8 over make*; D2 counts changes made through own non-const methods. Genuine defects F54-F59.", ""),
 }
 
+# fourth round
+ADDENDA2 = {
+    "C01": " D4.tree also covers dropping the needed points of a grid without loaded points (F86).",
+    "C04": " D6.tree as in C01 (F86).",
+    "C06": " Added: D6 orders precision(17) before every floating point field; D12.nodes (Sequence node cache covers every converted index set); D13.perdim (per-dimension members rebuilt only from a non-empty set, F85).",
+    "C07": " Added: D9.norm for the Sequence grid (NaN-seeded running maximum, F74); D10.alloutputs (monotone accumulation over outputs); D11.limits (C08-D1.store shared).",
+    "C09": " Added: D10.keep (registrations with delivered samples survive a request for candidates, F81); D11.nodes; D4.relations now evaluates the relations getSubGraph walks (F24 fixed).",
+    "C11": " Added: D9.moved (never-null owning members re-seated by user-provided moves, F78); D8 also decides the first output (F79).",
+    "C14": " Added: D15.family, D16.output (propositional check that output == -1 cannot reach a Global routine), D17.rawlen, D18.nopoints, D19.modes (F72-F80).",
+    "C15": " Added: the snapshot test is reached in every iteration (per-iteration must-pass).",
+    "C16": " Added: D10.init (scalar members of every constructor, library-wide), D11.readonly, D12.coefflayout (symbolic layout pairs of writer and setter), D13.xfile, D14.limits, D15.rejected (F64-F66, F82-F84).",
+    "C17": " Added: D9.header (header counts are vector sizes), D10.reopen (streams that outlive an attempt are closed on every way out; positive control in instantiate/controls.cpp), D5 also asks for the parked samples (known finding F67).",
+    "C18": " Added: D7.extent (job output buffers get an exact size on every path).",
+    "C19": " Added: D4.nan (the line search ends only on a comparison that holds, F68).",
+    "C20": " Added: D3.cache for the particle positions and masked re-evaluation of best strips (F69-F71).",
+}
+
 
 def main():
     for pid, (tech_add, text_add, note_add) in ADDENDA.items():
         tech, text, note, ref = CLAIMS[pid]
         CLAIMS[pid] = (tech + "; " + tech_add, text + text_add, note + note_add, ref)
+    for pid, text_add in ADDENDA2.items():
+        tech, text, note, ref = CLAIMS[pid]
+        CLAIMS[pid] = (tech, text + text_add, note, ref)
     props = [json.loads(l) for l in open(os.path.join(HERE, "properties.jsonl"))]
     checks = []
     na = []
